@@ -36,11 +36,22 @@ PROP = {
         # session end racing the session's own registration (Frp/Model/SessDrop.lean, Frp/Props/C10Drop.lean)
         "Frp.C10.Drop.dinv_reachable", "Frp.C10.Drop.drop_idle_spec", "Frp.C10.Drop.drop_pending_unchanged",
         "Frp.C10.Drop.gone_clean", "Frp.C10.Drop.gone_within_two", "Frp.C10.Drop.quiescent_empty",
+        # http proxies with and without a load-balancing group under sessions (Frp/Model/GroupRelease.lean over
+        # C06's Frp/Model/VhostReg.lean; Frp/Lemmas/GroupRelease.lean, Frp/Props/C10Group.lean)
+        "Frp.C10.Group.ginv_reachable", "Frp.C10.Group.table_eq_live_reachable", "Frp.C10.Group.routes_eq_live",
+        "Frp.C10.Group.members_eq_live", "Frp.C10.Group.register_ok_of_can", "Frp.C10.Group.can_register_of_sublive",
+        "Frp.C10.Group.reregister_after_close", "Frp.C10.Group.reregister_after_session_end",
+        "Frp.C10.Group.register_refused_unchanged", "Frp.C10.Group.refused_keeps_routes", "Frp.C10.Group.close_owner",
+        "Frp.C10.Group.close_foreign_noop", "Frp.C10.Group.sessionEnd_owner", "Frp.C10.Group.quiescent_clean",
     ],
-    "extra_targets": ["Frp.Props.C10Xport", "Frp.Props.C10Drop"],
+    "extra_targets": ["Frp.Props.C10Xport", "Frp.Props.C10Drop", "Frp.Props.C10Group"],
     "engines": [
         {"name": "release", "quick_n": 6000, "thorough_n": 30000, "thorough_seeds": 5,
          "nontrivial": nontrivial,
+         "result_class": lambda r: "view" if r.startswith("http[") else r[:14]},
+        {"name": "grprel", "quick_n": 4000, "thorough_n": 20000, "thorough_seeds": 5,
+         "nontrivial": lambda tok, res: tok[0] in ("reg", "race", "endsess")
+         or (tok[0] == "view" and res != "http[]names[]groups[]"),
          "result_class": lambda r: "view" if r.startswith("http[") else r[:14]},
         {"name": "ports", "quick_n": 2000, "thorough_n": 10000, "thorough_seeds": 3,
          "nontrivial": lambda tok, res: tok[0] == "reg",
@@ -84,7 +95,21 @@ PROP = {
             "ever handed to a proxy plus pooled ones of ended sessions; judged on the implementation's own answer: let-go "
             "connections closed, exactly once when guarded. xprace engine: k udp proxies closed explicitly while frpc keeps "
             "their work connections: does frps take a work connection for a closed proxy and leave it open (known finding "
-            "C10-udp-close-late-workconn, relational). "
+            "C10-udp-close-late-workconn, relational). grprel engine: http proxies with and without a load-balancing group "
+            "(custom domains in several spellings, subdomain, locations, route user, 3 group names, several keys) of three "
+            "real Control sessions on the release engine's ResourceController: fresh configurations, configurations "
+            "derived from a LIVE proxy that differ in exactly one respect (identical = fellow member, wrong key, other "
+            "domain / spelling, other location, other route user, a second domain / location / subdomain of a grouped "
+            "proxy, same route in another group or without group, name taken), verbatim re-submission of registrations "
+            "whose proxy was closed or whose session ended (same / other session), close by owner / foreign session, "
+            "session end, and `race`: CloseProxy is started and HELD inside vhost.Routers.Del (the harness keeps a read "
+            "lock on the route table, as a request being routed does; event: a pending writer refuses TryRLock), "
+            "RegisterProxy of another session is started, the lock is dropped once the registration passed the gate "
+            "httpgroup.register.lookedup or after 10 ms — the join racing the leave of the last member; either order may "
+            "take effect (relational); `view` dumps the http route table, the name table and HTTPGroupController.groups "
+            "(members per group, by reflection); judged on the implementation's own answers: a refusal must be justified "
+            "by a live proxy (C10.Group.CanRegister), route table and group table = what the proxies it lists as live "
+            "stand for. "
             "Non-trivial = every registration attempt / section, session end and non-empty view; distinct = "
             "distinct (op line, result)",
     "trusted": COMMON_TRUST + [
@@ -96,12 +121,19 @@ PROP = {
         "models Frp/Model/SessDrop.lean (Dispatcher.readLoop runs handleNewProxy synchronously, so worker's teardown follows "
         "the registration), Frp/Model/WorkConns.lean (lifecycle bookkeeping of top closes; graphs from C01's "
         "Frp/Model/CloseGraph.lean) and Frp/Model/UdpCloseRace.lean written by hand; tied by the regrace / xport / xprace engines",
+        "model Frp/Model/GroupRelease.lean (sessions over C06's hand-written Frp/Model/VhostReg.lean: HTTPGroupController.Register / "
+        "UnRegister and Routers.Add / Del are one critical section each, so a close and a registration running at the same "
+        "time take effect in one of the two orders); tied by the grprel engine; HTTPGroupController.groups / pxyNames / "
+        "createFuncs and Routers.mutex are reached through reflect + unsafe (field names of the linked tree); gate "
+        "httpgroup.register.lookedup (verifhook, tag verif) is observed, not parked at",
         "xport: the scripted frpc end (stack mirrored with golib's real WithEncryption / WithCompression) and the counting "
         "net.Conn handed to Control.RegisterWorkConn; bounded waits of 1.5 s for a close that must happen",
     ],
     "assumptions": [
         "goroutine / file-descriptor footprint over repeated cycles is not measured by this check (runtime, not logic)",
-        "group membership release is covered by C13's model (tcp groups' ports: Ports model, ports engine); pooled "
+        "release of tcp / tcpmux group membership is covered by C13's model (tcp groups' ports: Ports model, ports engine; http "
+        "groups: here, Frp/Props/C10Group.lean + grprel); grprel schedules ONE window of the close (inside Routers.Del, where the "
+        "last member's leave and a plain proxy's close both pass) against a whole registration, not every pair of lock sections; pooled "
         "work connections by C11's (xport only counts pooled connections of ended sessions still open); idle backend "
         "connections of the HTTP transport by C02's (xport ends every exchange so that the connection is not kept idle); "
         "close graphs of the tcp-like proxy types, the client side and the visitor leg by C01's",
@@ -119,9 +151,9 @@ PROP = {
 }
 
 META = {
-    "engine": "lean+harness(release, ports, regrace, xport, xprace)",
+    "engine": "lean+harness(release, grprel, ports, regrace, xport, xprace)",
     "design_ref": "DESIGN.md §6 C10",
     "technique": "Lean 4 invariant + exact-state theorems (register∘close = id; failed registration = id; session end = filter; deferred session end; close-graph counts) over all histories / schedules + differential correspondence with the real Control / ResourceController tables and counted work connections of real http / udp proxies",
-    "text": "Proof: in the model of the server's exclusive-key tables (http/https/tcpmux routes, visitor and NAT-hole listeners, proxy names) and of the port manager, for every reachable state: a registration that conflicts at any claim leaves the state exactly as before; explicit close removes exactly the closing proxy's keys and only for the owning session; register followed by close is the identity on the whole state (no table growth, identical re-registration succeeds on any session); session end removes exactly the keys and names of that session's proxies and nothing of other sessions; ports are free immediately after close and all accounting is unchanged by a failed registration (C09 theorems). For registrations of several sessions running concurrently (small-step model: quota charge + Exist | Run | Add, every interleaving by induction over op lists): tables stay consistent and every session's quota counter equals the ports of what it owns plus its registration in flight; a registration failing at Run or at Add (name taken concurrently) leaves no key, no name and no quota charge behind and touches no other holder or counter; an immediately refused one changes nothing; close and session end give back exactly the proxy's / session's keys, names and ports; the identical registration submitted afterwards goes through all sections whenever name and keys are free and the ports fit on top of what the session really owns; with no proxy and no registration left all tables are empty and all counters 0. When a session's control connection drops while its own registration is parked between two sections (every schedule): nothing changes until the registration returned, the teardown then runs within at most two more sections and leaves nothing of the session — no proxy, name, key, flight, counter 0 — whatever the registration's outcome, other sessions untouched; no teardown is pending once no registration is in flight. Work connections of http and udp proxies (the two types whose only handle is the top of the wrapper stack; close graphs from C01): for every combination of encryption, compression and server-side limit and any number k ≥ 1 of Close() calls on the top, the work connection is closed exactly once (udp without any wrapper: every call reaches it); the stack whose limiter closure reads the reassigned variable never closes it under a server-side limit; for every history of register / exchange / take / I-O error / close / session end every connection a proxy let go of is closed (exactly once when guarded), a connection still current belongs to a live udp proxy of the same session, and with no proxy left every connection ever handed out is closed. DEFECT (known finding, witness + bound + repaired clause proved): UDPProxy.Close can be overtaken by its own reader goroutine, frps then installs one more work connection on the closed proxy and leaves it open. Partial: runtime footprint (goroutines, descriptors) and the resources modelled by C01/C02/C11/C13 are outside this check. Tie: 6000+2000+6000 generated ops per quick run on the real code with full table (and quota counter) dumps, plus 320 xport ops (about 20 scenarios of real http/udp proxies with counted work connections) and the udp close race.",
-    "note": "Trusted: Lean kernel; hand-written models; release/ports/regrace/xport/xprace engines (scripted frpc end, counting work connections, bounded waits), the verif dump hooks and the reg.checked/reg.ran/reg.added gates. Known finding: C10-udp-close-late-workconn (repair proposed in hooks/C10-fix-udp-late-workconn.patch). Not covered here: goroutine/fd footprint, group membership (C13), pooled work connections of live sessions (C11), idle HTTP backend connections (C02), close graphs of the tcp-like types / client / visitor leg (C01), a close inside the hand-over window of a udp work connection.",
+    "text": "Proof: in the model of the server's exclusive-key tables (http/https/tcpmux routes, visitor and NAT-hole listeners, proxy names) and of the port manager, for every reachable state: a registration that conflicts at any claim leaves the state exactly as before; explicit close removes exactly the closing proxy's keys and only for the owning session; register followed by close is the identity on the whole state (no table growth, identical re-registration succeeds on any session); session end removes exactly the keys and names of that session's proxies and nothing of other sessions; ports are free immediately after close and all accounting is unchanged by a failed registration (C09 theorems). For registrations of several sessions running concurrently (small-step model: quota charge + Exist | Run | Add, every interleaving by induction over op lists): tables stay consistent and every session's quota counter equals the ports of what it owns plus its registration in flight; a registration failing at Run or at Add (name taken concurrently) leaves no key, no name and no quota charge behind and touches no other holder or counter; an immediately refused one changes nothing; close and session end give back exactly the proxy's / session's keys, names and ports; the identical registration submitted afterwards goes through all sections whenever name and keys are free and the ports fit on top of what the session really owns; with no proxy and no registration left all tables are empty and all counters 0. When a session's control connection drops while its own registration is parked between two sections (every schedule): nothing changes until the registration returned, the teardown then runs within at most two more sections and leaves nothing of the session — no proxy, name, key, flight, counter 0 — whatever the registration's outcome, other sessions untouched; no teardown is pending once no registration is in flight. Work connections of http and udp proxies (the two types whose only handle is the top of the wrapper stack; close graphs from C01): for every combination of encryption, compression and server-side limit and any number k ≥ 1 of Close() calls on the top, the work connection is closed exactly once (udp without any wrapper: every call reaches it); the stack whose limiter closure reads the reassigned variable never closes it under a server-side limit; for every history of register / exchange / take / I-O error / close / session end every connection a proxy let go of is closed (exactly once when guarded), a connection still current belongs to a live udp proxy of the same session, and with no proxy left every connection ever handed out is closed. Http proxies with and without a load-balancing group under sessions (model of HTTPProxy.Run / Close, HTTPGroupController, HTTPGroup and Routers, every history of register / close / session end with arbitrary configurations): the route table is exactly the set of routes the live proxies' configurations stand for and the members of every group are exactly the live proxies configured for it; a refused registration (name taken, route conflict at any route, wrong key, other domain / location / route user, repeated member, second route of a grouped proxy) leaves live proxies, routes and memberships as they were; a registration goes through whenever no LIVE proxy stands against it (name free; without group: its routes distinct and held by no live proxy; with group: one route, and either no live member and the route free, or all live members have that route, route user and key) — so after close by the owner and after session end the identical registration succeeds on any session, whatever was refused, closed or left in the group table before; with no live proxy left there is no route, no member, no running instance. DEFECT (known finding, witness + bound + repaired clause proved): UDPProxy.Close can be overtaken by its own reader goroutine, frps then installs one more work connection on the closed proxy and leaves it open. Partial: runtime footprint (goroutines, descriptors) and the resources modelled by C01/C02/C11/C13 are outside this check. Tie: 6000+4000+2000+6000 generated ops per quick run on the real code with full table (and quota counter) dumps, plus 320 xport ops (about 20 scenarios of real http/udp proxies with counted work connections) and the udp close race.",
+    "note": "Trusted: Lean kernel; hand-written models; release/ports/regrace/xport/xprace engines (scripted frpc end, counting work connections, bounded waits; grprel: reflection on the group controller, read lock on the route table), the verif dump hooks and the reg.checked/reg.ran/reg.added gates. Known finding: C10-udp-close-late-workconn (repair proposed in hooks/C10-fix-udp-late-workconn.patch). Not covered here: goroutine/fd footprint, tcp / tcpmux group membership (C13), pooled work connections of live sessions (C11), idle HTTP backend connections (C02), close graphs of the tcp-like types / client / visitor leg (C01), a close inside the hand-over window of a udp work connection.",
 }
